@@ -21,6 +21,8 @@ import (
 	"os"
 	"os/signal"
 	"strings"
+
+	"github.com/dappledger/AnnChain/utils/verifhook"
 )
 
 var (
@@ -102,17 +104,29 @@ func WriteFileAtomic(filePath string, newBytes []byte, mode os.FileMode) error {
 		if err != nil {
 			return fmt.Errorf("Could not read file %v. %v", filePath, err)
 		}
+		verifhook.Write("WriteFileAtomic.bak:" + filePath)
+		if err := verifhook.Fail("WriteFileAtomic.bak:" + filePath); err != nil {
+			return err
+		}
 		err = ioutil.WriteFile(filePath+".bak", fileBytes, mode)
 		if err != nil {
 			return fmt.Errorf("Could not write file %v. %v", filePath+".bak", err)
 		}
 	}
 	// Write newBytes to filePath.new
+	verifhook.Write("WriteFileAtomic.new:" + filePath)
+	if err := verifhook.Fail("WriteFileAtomic.new:" + filePath); err != nil {
+		return err
+	}
 	err := ioutil.WriteFile(filePath+".new", newBytes, mode)
 	if err != nil {
 		return fmt.Errorf("Could not write file %v. %v", filePath+".new", err)
 	}
 	// Move filePath.new to filePath
+	verifhook.Write("WriteFileAtomic.rename:" + filePath)
+	if err := verifhook.Fail("WriteFileAtomic.rename:" + filePath); err != nil {
+		return err
+	}
 	err = os.Rename(filePath+".new", filePath)
 	return err
 }
